@@ -533,6 +533,23 @@ theorem failed_open_can_be_retried (s : St) (hc : s.isOpen = false) (hf : (step 
     | true => exact absurd (this.1 hb) hf
   exact ⟨h1, (open_close_state_machine _).2.2.1 h1, open_succeeds_when_os_allows _ h1 hp⟩
 
+/-- **After a failed `open` no socket created by the transport is left open** (what the repairs f965cdf
+and 08e4670 establish): on a closed transport, whatever the OS answers, every failure path of `open`
+ends with each socket / port it created closed again (`unclosed` = created − closed, read off the
+device-interaction trace, is unchanged); a successful `open` leaves exactly one more open. -/
+theorem failed_open_leaves_no_socket_open (s : St) (hc : s.isOpen = false) :
+    ((step s .open).2 ≠ .unit → unclosed (step s .open).1.io = unclosed s.io) ∧
+    ((step s .open).2 = .unit → unclosed (step s .open).1.io = unclosed s.io + 1) := by
+  simp only [step]
+  exact ⟨(doOpen_unclosed s hc).2, (doOpen_unclosed s hc).1⟩
+
+/-- … and `close` releases the one that was open -/
+theorem close_releases_socket (s : St) (ho : s.isOpen = true) :
+    unclosed (step s .close).1.io = unclosed s.io - 1 := by
+  have e : unclosed [Io.cl] = -1 := by decide
+  simp only [step, doClose, ho, Bool.not_true, Bool.false_eq_true, if_false, unclosed_append, e]
+  omega
+
 /-- the open flag as a two-state machine driven by the op and its outcome -/
 def flagAfter (b : Bool) (op : Op) (o : Out) : Bool :=
   match op with
@@ -727,6 +744,11 @@ example : SliceLe 3 [⟨1, .timeout⟩, ⟨3, .timeout⟩, ⟨3, .timeout⟩]
 example : (step { init .tcp 0 512 with isOpen := true, dev := [⟨1, .data [7]⟩] } (.read 1 (some 0))).2 = .exc .timeout
     ∧ (step { init .tcp 0 512 with isOpen := true, dev := [⟨1, .data [7]⟩] } (.read 1 (some 0))).1.buf = [7] := by
   decide
+
+-- `failed_open_leaves_no_socket_open`: refused TCP connect and failing UDP bind both end with the socket closed
+example : (step { init .tcp 0 512 with openPlan := [.late] } .open).1.io = [.mk, .cn, .cl]
+    ∧ (step { init .udp 4096 4096 with openPlan := [.late] } .open).1.io = [.gh, .mk, .bd, .cl]
+    ∧ (step { init .udp 4096 4096 with openPlan := [.early] } .open).1.io = [.gh] := by decide
 
 -- closed transport returning buffered data through socket `read_until` (the second disjunct is inhabited)
 example : (step { init .tcp 0 512 with isOpen := false, buf := [1, 10, 2] } (.readUntil [10] none)).2 = .ret [1, 10] := by
